@@ -229,8 +229,9 @@ static void timeseries_histogram_fill(struct cmi_dataset_histogram *hp,
     cmb_assert_debug(n > 0u);
     cmb_assert_debug(xa != NULL);
 
-    /* Distribute x-values to bins */
-    for (uint64_t ui = 0u; ui < n - 1u; ui++) {
+    /* Distribute x-values to bins. All of them: the sample without a duration
+     * (weight zero) is the last one only while the series is in time order */
+    for (uint64_t ui = 0u; ui < n; ui++) {
         /* In what bin does this x-value belong? */
         uint16_t bin;
         const double x = xa[ui];
